@@ -67,6 +67,52 @@ def small_exhaustive(ctx):
     return items
 
 
+def theorem_layouts(ctx, n):
+    """the every-layout theorem (Properties/C03.C03_every_layout_decidable) evaluated by the extracted model (wire op 209):
+    for a generated model, a run of blanks and tabs and a line break, the model writes the document in that layout, decides
+    whether the theorem applies (layout_okb) and names the model the document must denote (canonical m); the
+    implementation has to read exactly that model from the text"""
+    rng = ctx.rng
+    runs = [" ", "  ", "\t", " \t ", "\t\t ", "     "]
+    breaks = ["\n", "\n  ", "\n\n", "\n\t", "\n\n\n    ", "\n\n \t", "\n\t\t\t\t"]
+    models = []
+    for _ in range(2 * n):
+        # the theorem's domain (about a quarter of these have plain names only and expressible rewrites): no module information, no conditions (names are mostly plain identifiers already)
+        m = dslgen.gen_wire_model(rng, modular=False, degenerate=0, p_this=0.5)
+        m[2] = []
+        for t in m[1]:
+            for meta in t[2]:
+                for _, rm in meta[0]:
+                    for ref in rm[0]:
+                        ref[2] = []
+        models.append(m)
+    from props import c02
+    models += c02.tree_models([t for k in (1, 2, 3, 4) for t in c02.all_trees(k)])
+    choice = [(rng.choice(runs), rng.choice(breaks)) for _ in models]
+    try:
+        th = ctx.model(tf.FAM, ["(209 %s %s %s)" % (sexp.enc(S(w)), sexp.enc(S(b)), sexp.enc(m)) for m, (w, b) in zip(models, choice)])
+    except core.ModelUnavailable:
+        tf.model_unavailable(ctx)
+        return
+    app = [(m, c, r) for m, c, r in zip(models, choice, th) if r and r[0] == 1]
+    ctx.count("theorem_layout_applicable", len(app))
+    ctx.count("theorem_layout_not_applicable", len(models) - len(app))
+    texts = [sexp.to_str(r[1]) for _, _, r in app]
+    back = [tf.norm_impl_dsl(r) for r in tf.impl_dsl(ctx, texts, False)]
+    for (m, (w, b), r), t, got in zip(app, texts, back):
+        ctx.evaluations += 1
+        ctx.note_case(t, w != " " or b not in ("\n", "\n  "))
+        if got[0] != "ok":
+            ctx.violation("theorem-layout-rejected", {"input": S(t), "text": t, "blank_run": w, "line_break": b, "impl": got,
+                                                      "why": "the proved every-layout theorem applies to this document (layout_okb) but the implementation rejects it"})
+        elif dslgen.canon_model(r[2]) != got[1]:
+            ctx.violation("theorem-layout-wrong-model", {"input": S(t), "text": t, "blank_run": w, "line_break": b,
+                                                         "why": "the model read from this layout differs from the canonical form the proved every-layout theorem promises",
+                                                         "promised": dslgen.canon_model(r[2]), "got": got[1], "expected_model": dslgen.canon_model(r[2])})
+        elif len(ctx.samples) < 6 and w != " " and len(t) < 300:
+            ctx.sample({"text": t, "layout": "theorem: blank run %r, line break %r" % (w, b)})
+
+
 def run(ctx):
     ctx.rule = ("random syntax trees (types, relations, nested/parenthesised operators, restrictions with wildcard/"
                 "relation/condition, keyword and extended identifiers, conditions with plain and hostile CEL bodies, "
@@ -78,6 +124,7 @@ def run(ctx):
     n = 250 if ctx.tier == "quick" else 6000
     check_batch(ctx, gen_items(ctx, n, [0.0, 0.25, 0.6]), "generated")
     check_batch(ctx, small_exhaustive(ctx), "small")
+    theorem_layouts(ctx, 300 if ctx.tier == "quick" else 4000)
     # the repository's own documents: correspondence only (no expected model)
     docs = dslgen.corpus_dsl()
     for modular in (False, True):
